@@ -298,6 +298,7 @@ def run_phase(wd, d, paths, vcf_in=None, out_name="out.vcf", phase_inputs=None, 
             ignore_read_groups=o.get("ignore_rg", False),
             max_coverage=o.get("max_coverage", 15),
             distrust_genotypes=o.get("distrust", False),
+            include_homozygous=o.get("include_homozygous", False),
             ped=paths["ped"] if o.get("ped") else None,
             genetic_haplotyping=o.get("genetic_haplotyping", True),
             recombination_list_filename=lp.get("recomb"),
